@@ -15,7 +15,8 @@ func registerC13() {
 		Level: "exploration",
 		Rule: "PRNG interleavings of definition and data records over up to 16 local message types: redefinitions switching message, field list, sizes and byte order, the same " +
 			"message defined differently in two slots, compressed-timestamp records addressing slots 0-3 while other slots hold other definitions, developer-data definitions, and " +
-			"(1.5% per step) a data record on an undefined slot, which must be rejected with the records before it kept; every message carries a unique serial number; a case is " +
+			"(1.5% per step) a data record on an undefined slot, which must be rejected with the records before it kept; every message carries a unique serial number; family chain-slots: chains of 2-3 files through DecodeChained in which a later file uses a " +
+			"local type that only an earlier file defined (definitions end with their file: must be rejected) or redefines the earlier file's slots differently; a case is " +
 			"non-trivial when at least two slots were live and one redefinition or an undefined-slot record occurred; distinct by stream digest",
 		Assume: []string{
 			"struct-field positions come from the hook table (C15)",
@@ -24,6 +25,7 @@ func registerC13() {
 		MinNontrivial: 500,
 		Families: []lib.Family{
 			{Name: "interleave", N: func(t string) uint64 { return tierN(t, 12000, 1000000) }, Run: c13Case},
+			{Name: "chain-slots", N: func(t string) uint64 { return tierN(t, 1500, 100000) }, Run: c13Chain},
 		},
 	})
 }
@@ -148,4 +150,97 @@ func planSlotStats(p *ref.Plan) (live, redefs int) {
 		}
 	}
 	return
+}
+
+// c13Chain: definitions belong to one file. In a chain, a later file that uses a local type only an
+// earlier file defined must be rejected; a later file that defines its own slots must decode by them.
+func c13Chain(c *lib.Ctx, idx uint64) {
+	rng := lib.NewRand("C13.chain-slots", idx)
+	ftA := lib.FileTypes[idx%uint64(len(lib.FileTypes))].Type
+	ftB := lib.FileTypes[(idx/17)%uint64(len(lib.FileTypes))].Type
+	mk := func(ft byte, locals int) *ref.Plan {
+		o := lib.GenOpts{FileType: ft, Mesgs: lib.HostedMesgs(ft), Records: 5 + rng.Intn(20), Locals: locals, Redefine: 15, BigEndian: 50, Unknown: 15, Serial: true, MaxFields: 4}
+		return lib.NewPlanGen(rng, o).Fill()
+	}
+	a := mk(ftA, 8+rng.Intn(8))
+	b := mk(ftB, 1+rng.Intn(4))
+	exA, errA := lib.Expect(a, lib.ExpectOpts{})
+	if errA != nil || exA.Fail {
+		return
+	}
+	// Slots A defined and B did not.
+	var defA, defB [16]bool
+	for _, r := range a.Records {
+		if r.IsDef {
+			defA[r.Local] = true
+		}
+	}
+	for _, r := range b.Records {
+		if r.IsDef {
+			defB[r.Local] = true
+		}
+	}
+	var only []byte
+	for s := 0; s < 16; s++ {
+		if defA[s] && !defB[s] {
+			only = append(only, byte(s))
+		}
+	}
+	intruder := idx%2 == 0 && len(only) > 0
+	failAt := -1
+	if intruder {
+		slot := only[rng.Intn(len(only))]
+		// the data record A would have accepted on that slot
+		var lastDef *ref.Record
+		for i := range a.Records {
+			if a.Records[i].IsDef && a.Records[i].Local == slot {
+				lastDef = &a.Records[i]
+			}
+		}
+		rec := ref.Record{Local: slot}
+		for _, f := range lastDef.Fields {
+			rec.Data = append(rec.Data, rng.Bytes(int(f.Size)))
+		}
+		for _, d := range lastDef.Dev {
+			rec.Data = append(rec.Data, rng.Bytes(int(d.Size)))
+		}
+		pos := 2 + rng.Intn(len(b.Records)-1)
+		b.Records = append(b.Records[:pos], append([]ref.Record{rec}, b.Records[pos:]...)...)
+		failAt = pos
+	}
+	chain := append(append([]byte{}, a.Bytes()...), b.Bytes()...)
+	c.SetInflight(chain)
+	res := lib.CallResult{}
+	o := lib.Guard(func() { res = lib.Call("DecodeChained", lib.NewReader(chain, lib.Chunker{Kind: "whole"})) })
+	c.Eval()
+	if o.Panicked || o.Hang {
+		c.Violation(chain, "DecodeChained panicked/hung: %s", o.Panic)
+		return
+	}
+	if intruder {
+		c.Count("chains_with_slot_only_earlier_file_defined", 1)
+		if res.Err == nil {
+			c.Violation(chain, "file 2 of a chain uses local type %d in record %d, which only file 1 defined: DecodeChained accepted it (definitions must end with their file)", b.Records[failAt].Local, failAt)
+			return
+		}
+		c.Nontrivial(chain)
+		return
+	}
+	if res.Err != nil || len(res.Files) != 2 {
+		c.Violation(chain, "DecodeChained over two well-formed files: %d files, error %v", len(res.Files), res.Err)
+		return
+	}
+	for i, p := range []*ref.Plan{a, b} {
+		ex, err := lib.Expect(p, lib.ExpectOpts{})
+		if err != nil || ex.Fail {
+			return
+		}
+		got := lib.FileContent(res.Files[i])
+		if diffs := lib.CompareContent(ex.Content, got, lib.CompareOpts{Header: true, Skip: compSkip(p, ex)}); len(diffs) > 0 {
+			c.Violation(chain, "file %d of a chain is decoded with definitions that are not its own: %s", i+1, lib.DiffsString(diffs, 3))
+			return
+		}
+	}
+	c.Count("chains_with_independent_slots", 1)
+	c.Nontrivial(chain)
 }
